@@ -304,11 +304,43 @@ impl Case {
     }
 }
 
+/// Candidates in the order of their first declaration in the rendered program (prototypes come first)
+fn declaration_order(case: &Case, perm: &[usize]) -> Vec<usize> {
+    let h = case.content_hash();
+    let mut order: Vec<usize> = perm.iter().copied().filter(|k| (h >> (2 * k)) & 3 == 0).collect();
+    for &k in perm {
+        if !order.contains(&k) {
+            order.push(k);
+        }
+    }
+    order
+}
+
 /// The program for one declaration order. `assert_ret = Some(k)` wraps the call in `assert_type<R{k}>`.
 fn render(case: &Case, perm: &[usize], assert_ret: Option<usize>) -> String {
     let mut s = String::new();
     for k in 0..case.cands.len() {
         s.push_str(&format!("struct R{} {{ int v; }};\n", k));
+    }
+    // some candidates are declared ahead of their definition (a quarter of them, chosen by the content of the case so that every
+    // declaration order of one case shows the same set); the prototype may carry a default value for its last parameter that the
+    // definition does not repeat. Prototype and definition are one candidate: nothing observable may change.
+    let h = case.content_hash();
+    for &k in perm {
+        if (h >> (2 * k)) & 3 != 0 {
+            continue;
+        }
+        let n = case.cands[k].len();
+        let params: Vec<String> = case.cands[k]
+            .iter()
+            .enumerate()
+            .map(|(i, p)| {
+                // (never where the default would make the candidate callable with the arguments of this case)
+                let default = if i + 1 == n && !p.out && (h >> 20) & 1 == 0 && case.args.len() + 1 != n { format!(" = ({})1", p.ty.name()) } else { String::new() };
+                format!("{} p{}{}", p.text(), i, default)
+            })
+            .collect();
+        s.push_str(&format!("R{} f({});\n", k, params.join(", ")));
     }
     for &k in perm {
         let params: Vec<String> = case.cands[k].iter().enumerate().map(|(i, p)| format!("{} p{}", p.text(), i)).collect();
@@ -609,7 +641,7 @@ fn identify(module: &ir::Module, case: &Case, perm: &[usize]) -> Outcome {
     locs.sort();
     let my = reg.get_function_location(id).get_raw();
     let pos = locs.iter().position(|l| *l == my);
-    if pos != perm.iter().position(|c| *c == k) {
+    if pos != declaration_order(case, perm).iter().position(|c| *c == k) {
         return Outcome::Broken(format!("callee returning R{} is declaration #{:?} in source order", k, pos));
     }
     Outcome::Chosen(k)
